@@ -32,6 +32,7 @@ class Ctx:
         self.rule = ""
         self.assumptions = []
         self.extra = {}
+        self.vacuity = None
         self.known, self.fixed = C.load_known(prop)
         self.devs = ",".join(sorted(self.known))
         self.workdir = C.ensure_dir(os.path.join(C.WORK, prop))
@@ -195,6 +196,10 @@ def run_one(props, prop, tier, seed, replay):
         props.replay(ctx, os.path.abspath(replay))
         return ctx.finish(write=False)
     props.PROPS[prop](ctx)
+    # an outcome that never showed up makes a clean run vacuous (tool error) - unless the run found violations: a change that
+    # makes a whole class of calls succeed also makes that class disappear, and the violations are the answer then
+    if getattr(ctx, "vacuity", None) and not ctx.violations:
+        raise C.ToolError(ctx.vacuity)
     return ctx.finish()
 
 
